@@ -276,7 +276,11 @@ def r2_breakers(ctx):
             ok = any((x[0] == 'call' and x[1].endswith('ModuleContext::gates')) or (x[0] == 'field' and x[2] == 'gates') for x in walk(src)) and \
                 not any(x[0] == 'call' and x[1].split('::')[-1] in ('take', 'skip', 'step_by', 'filter', 'take_while', 'skip_while') for x in walk(src)) and \
                 (w.trees is None or from_item(w.fn, w.trees[0]))
-        ctx.check(ok, 'drop-dissolves-all-gates', 'ModuleContext::drop dissolves the paths of every gate of the module', f.where())
+        if ok:
+            w = items[0]
+            conds = [a for s_, a in w.fn.guard_atoms(w.site.b) if a and a[0] in ('bool', 'cmp') and (w.form != 'loop' or s_ in w.fn.loops().get(w.anchor, ()))]
+            ok = not conds     # every gate, whatever its kind: a closed ring of gates has no endpoint to start from
+        ctx.check(ok, 'drop-dissolves-all-gates', 'ModuleContext::drop dissolves the paths of every gate of the module (unconditionally)', f.where())
     g = ctx.anchor('des::net::gate::Gate::dissolve_paths')
     if g:
         takes = [s for s in g.calls() if s.name == 'std::option::Option::take']
@@ -409,3 +413,7 @@ def run(ctx):
     r2_breakers(ctx)
     r3_globals_cleared(ctx)
     r4_weak_back_edges(ctx)
+    # (R5) events still queued when the simulation is dropped are released: every bucket pops (and thereby drops) its remaining nodes, and
+    # the buckets are emptied before the allocator goes (shared with C15.R5) — an event holds its message body and a strong module reference
+    from .C15 import r5_drain_before_allocator
+    r5_drain_before_allocator(ctx, rule='C20.R5')
